@@ -13,7 +13,7 @@ VERIF = os.path.dirname(os.path.dirname(os.path.abspath(__file__)))
 
 class Target(object):
     def __init__(self, key, contract, label=None, inline_all=False, timeout=None, jobs=4, obl_prefix=None,
-                 native=None):
+                 native=None, tags=None):
         self.key = key
         self.contract = contract
         self.label = label or key
@@ -22,6 +22,23 @@ class Target(object):
         self.jobs = jobs
         self.obl_prefix = obl_prefix
         self.native = native          # how to call the real unit natively (for replay / sanity samples)
+        # tags: clause labels look like "C03:handed-over"; with tags=("C03",) only the tagged post / pre@site
+        # clauses of those properties are kept (untagged obligations -- safety, frames, type preconditions,
+        # covers -- always stay: they are what makes the callee contracts usable at all)
+        self.tags = tuple(tags) if tags else None
+
+    def keeps(self, obl_id):
+        if not self.tags:
+            return True
+        label = obl_id.split("/", 3)[-1]
+        import re
+        found = re.findall(r"(?:^|[/ ])(C\d\d(?:,C\d\d)*):", label)
+        if not found:
+            return True
+        for f in found:
+            if set(f.split(",")) & set(self.tags):
+                return True
+        return False
 
 
 class Native(object):
@@ -80,7 +97,7 @@ class Property(object):
 
     def lemma(self, key, native=None, **ckw):
         tkw = {}
-        for k in ("label", "inline_all", "timeout", "jobs", "obl_prefix"):
+        for k in ("label", "inline_all", "timeout", "jobs", "obl_prefix", "tags"):
             if k in ckw:
                 tkw[k] = ckw.pop(k)
         ckw.setdefault("raises", {})
